@@ -251,6 +251,15 @@ fn lit(v: i64, rng: &mut Rng) -> String
 	}
 }
 
+trait FormFilter {fn filter_ok(self, v: i64) -> Self; fn filter_nonneg(self, v: i64) -> Self;}
+impl FormFilter for (Option<i64>, String)
+{
+	/// `f & 0xFFFFFFFF` only denotes `v` for 0 <= v < 2^32
+	fn filter_ok(self, v: i64) -> Self {if (0..1i64 << 32).contains(&v) {self} else {(None, self.1)}}
+	/// `f >> 2` of a non-negative value
+	fn filter_nonneg(self, v: i64) -> Self {if v >= 0 {self} else {(None, self.1)}}
+}
+
 /// a constant expression whose value is `v`; may add `.const` / `.global` definitions around the statement
 fn expr(v: i64, rng: &mut Rng, d: &mut Defs, allow_defer: bool) -> (String, &'static str)
 {
@@ -293,8 +302,32 @@ fn expr(v: i64, rng: &mut Rng, d: &mut Defs, allow_defer: bool) -> (String, &'st
 		{
 			d.n += 1;
 			let name = format!("f{}", d.n);
-			let _ = write!(d.after, ".const {name}, {v}; ");
-			if rng.chance(2, 3) {(name, "forward")} else {(format!("{name} + 0"), "forward")}
+			// the forward constant under every operator (all node kinds must survive the deferral of the statement)
+			let k = rng.range(1, 60);
+			let (fv, text): (Option<i64>, String) = if v.unsigned_abs() >= 1 << 40 {(Some(v), name.clone())} else {match rng.below(16)
+			{
+				0 => (Some(v ^ k), format!("{name} ^ {k}")),
+				1 => (Some(v ^ k), format!("{k} ^ {name}")),
+				2 => (Some(v & !(v & 0x15)), format!("{name} | {}", v & 0x15)),
+				3 => (Some(v | (0x1000 << 20)), format!("{name} & 0xFFFFFFFF")).filter_ok(v),
+				4 => (v.checked_add(k), format!("{name} - {k}")),
+				5 => (k.checked_sub(v), format!("{k} - {name}")),
+				6 => (Some(v), format!("{name} * 1")),
+				7 => (Some(v), format!("{name} / 1")),
+				8 => (Some(v), format!("{name} % 0x20000000000")),
+				9 => (Some(v), format!("{name} << 0")),
+				10 => (Some(v), format!("{name} >> 0")),
+				11 => (v.checked_neg(), format!("-{name}")),
+				12 => (Some(!v), format!("!{name}")),
+				13 => (v.checked_mul(4), format!("{name} >> 2")).filter_nonneg(v),
+				14 => (Some(v), format!("{name} + 0")),
+				_ => (Some(v), name.clone()),
+			}};
+			match fv
+			{
+				Some(fv) => {let _ = write!(d.after, ".const {name}, {fv}; "); (text, "forward")},
+				None => {let _ = write!(d.after, ".const {name}, {v}; "); (name, "forward")},
+			}
 		},
 		_ =>
 		{
